@@ -43,6 +43,8 @@ pub struct TopicModel {
     pub cursor_floating: bool,
     pub count_unknown: bool,
     pub clean: Option<bool>,
+    /// after a failed append the marker may be either value (the statement speaks of appends that return)
+    pub clean_unknown: bool,
 }
 
 #[derive(Clone, Debug, Default)]
@@ -65,6 +67,8 @@ pub struct SeqModel<'a> {
     /// last peek result, to compare with the consuming twin that follows
     last_peek: Option<(u32, OpKind, Res)>,
     last_snap: Option<(u32, String)>,
+    /// operations executed since the last bookkeeping snapshot
+    since_snap: Vec<u32>,
     pub stats: BTreeMap<String, u64>,
 }
 
@@ -96,6 +100,7 @@ impl<'a> SeqModel<'a> {
             ops: index_ops(plan),
             last_peek: None,
             last_snap: None,
+            since_snap: Vec::new(),
             stats: BTreeMap::new(),
         }
     }
@@ -198,6 +203,9 @@ impl<'a> SeqModel<'a> {
 
     fn apply(&mut self, inc: usize, op: &'a Op, res: &Res) {
         let id = op.id;
+        if !matches!(op.kind, OpKind::ReclaimSnap {}) {
+            self.since_snap.push(id);
+        }
         // the consuming twin of a peek must return the same thing
         if let Some((pid, pk, pres)) = self.last_peek.take() {
             let twin = match (&pk, &op.kind) {
@@ -259,7 +267,7 @@ impl<'a> SeqModel<'a> {
                 self.open.remove(inst);
             }
             OpKind::Append { inst, topic, .. } | OpKind::BatchAppend { inst, topic, .. } | OpKind::BatchAlias { inst, topic, .. } => {
-                let sigs = self.expected_sigs(op);
+                let sigs = if res.k == "ok" { self.expected_sigs(op) } else { vec![] };
                 let is_batch = !matches!(op.kind, OpKind::Append { .. });
                 let (inst, topic) = (*inst, *topic);
                 let Some(t) = self.topic_mut(inst, topic) else { return };
@@ -267,17 +275,17 @@ impl<'a> SeqModel<'a> {
                     "ok" => {
                         t.appended_ok += sigs.len() as u64;
                         t.log.extend(sigs);
-                        if t.clean.is_some() || !is_batch || true {
-                            t.clean = Some(false);
-                        }
+                        let _ = is_batch;
+                        t.clean = Some(false);
+                        t.clean_unknown = false;
                     }
                     "err" => {
                         // failed append: nothing readable; marker state unspecified
-                        t.clean = None;
+                        t.clean_unknown = true;
                     }
                     _ => {
                         t.lost_track = true;
-                        t.clean = None;
+                        t.clean_unknown = true;
                         let msg = res.msg.clone().unwrap_or_default();
                         self.push(
                             Finding::new("c04.append_panic", inc, id, format!("append panicked: {}", msg))
@@ -307,11 +315,10 @@ impl<'a> SeqModel<'a> {
                 }
                 let mut cursor = t.cursor;
                 if t.cursor_floating {
-                    if let Some(first) = res.entries.first() {
-                        // adopt the resume point if it is not beyond the consumed prefix
-                        if let Some(j) = (0..=cursor.min(t.log.len().saturating_sub(1))).rev().find(|&j| t.log[j].0 == first.0 && t.log[j].1 == first.1) {
-                            cursor = j;
-                        }
+                    // AtLeastOnce after a restart: adopt the resume point the engine chose if it is
+                    // not beyond the consumed prefix and the whole result continues the log from there
+                    if let Some(j) = adopt_point(&t.log, cursor, &res.entries, true) {
+                        cursor = j;
                     }
                     t.cursor_floating = false;
                 }
@@ -417,19 +424,20 @@ impl<'a> SeqModel<'a> {
             OpKind::MarkClean { inst, topic } => {
                 if let Some(t) = self.topic_mut(*inst, *topic) {
                     t.clean = Some(true);
+                    t.clean_unknown = false;
                 }
             }
             OpKind::MarkDirty { inst, topic } => {
                 if let Some(t) = self.topic_mut(*inst, *topic) {
                     t.clean = Some(false);
+                    t.clean_unknown = false;
                 }
             }
             OpKind::IsClean { inst, topic } => {
                 let (inst, topic) = (*inst, *topic);
                 let Some(t) = self.topic_mut(inst, topic) else { return };
                 // a topic never touched reports clean
-                let touched = t.clean.is_some() || !t.log.is_empty();
-                let expect = if touched { t.clean } else { Some(true) };
+                let expect = if t.clean_unknown { None } else { Some(t.clean.unwrap_or(true)) };
                 if let (Some(e), Some(g)) = (expect, res.flag) {
                     if e != g {
                         self.push(
@@ -448,19 +456,34 @@ impl<'a> SeqModel<'a> {
             OpKind::ReclaimSnap {} => {
                 if let Some(text) = &res.text {
                     if let Some((pid, prev)) = &self.last_snap {
-                        if *pid + 2 == id && prev != text {
-                            self.push(
-                                Finding::new(
-                                    "c02.reclaim_state_changed",
-                                    inc,
-                                    id,
-                                    format!("reclamation bookkeeping changed across the non-consuming read op {}: before={} after={}", pid + 1, trunc(prev, 300), trunc(text, 300)),
-                                )
-                                .fact("api", serde_json::json!(self.ops.get(&(pid + 1)).map(|o| api_name(&o.kind)).unwrap_or("?"))),
-                            );
+                        let only_nonconsuming = self.since_snap.len() == 1
+                            && self
+                                .ops
+                                .get(&self.since_snap[0])
+                                .map(|o| {
+                                    matches!(
+                                        o.kind,
+                                        OpKind::ReadNext { checkpoint: false, .. } | OpKind::BatchRead { checkpoint: false, .. } | OpKind::BatchRead { start: Some(_), .. }
+                                    )
+                                })
+                                .unwrap_or(false);
+                        if only_nonconsuming && prev != text {
+                            let (rule, facts) = classify_snap_change(prev, text);
+                            let mut f = Finding::new(
+                                rule,
+                                inc,
+                                id,
+                                format!("reclamation bookkeeping changed across the non-consuming read op {} (snapshots {} and {}): before={} after={}", self.since_snap[0], pid, id, trunc(prev, 300), trunc(text, 300)),
+                            )
+                            .fact("api", serde_json::json!(self.ops.get(&self.since_snap[0]).map(|o| api_name(&o.kind)).unwrap_or("?")));
+                            for (k, v) in facts {
+                                f = f.fact(&k, v);
+                            }
+                            self.push(f);
                         }
                     }
                     self.last_snap = Some((id, text.clone()));
+                    self.since_snap.clear();
                 }
             }
             OpKind::Sleep { .. } | OpKind::ListDir { .. } => {}
@@ -535,7 +558,7 @@ impl<'a> SeqModel<'a> {
                         found = Some(j);
                         break;
                     }
-                    if i == 0 && s.0 > g.0 && s.2 != 0 {
+                    if i == 0 && s.0 > g.0 {
                         // suffix of entry j?
                         if let Some((op_id, idx)) = Some(((s.2 >> 20) as u32, (s.2 & 0xFFFFF) as u32)) {
                             let p = payload(seed, topic, op_id, idx, s.0);
@@ -572,9 +595,8 @@ impl<'a> SeqModel<'a> {
         // ---- stateful reads ----
         let mut cursor = t.cursor;
         if t.cursor_floating {
-            if let Some(first) = got.first() {
-                let hi = cursor.min(t.log.len().saturating_sub(1));
-                if let Some(j) = (0..=hi).rev().find(|&j| t.log.get(j).map(|s| (s.0, s.1)) == Some((first.0, first.1))) {
+            if !got.is_empty() {
+                if let Some(j) = adopt_point(&t.log, cursor, got, false) {
                     cursor = j;
                     t.cursor = j;
                 }
@@ -661,6 +683,69 @@ impl<'a> SeqModel<'a> {
             self.push(f);
         }
     }
+}
+
+/// What changed between two reclamation snapshots. "c02.reclaim_marked": the only change is that
+/// some blocks went from not-consumed to consumed and each file's consumed counter rose by exactly
+/// the number of its blocks that flipped. Anything else is "c02.reclaim_state_changed".
+fn classify_snap_change(before: &str, after: &str) -> (&'static str, Vec<(String, serde_json::Value)>) {
+    let parse = |s: &str| serde_json::from_str::<serde_json::Value>(s).unwrap_or(serde_json::Value::Null);
+    let (b, a) = (parse(before), parse(after));
+    let mut other = false;
+    let mut flips: BTreeMap<String, i64> = BTreeMap::new();
+    let (bb, ab) = (b["blocks"].as_array().cloned().unwrap_or_default(), a["blocks"].as_array().cloned().unwrap_or_default());
+    if bb.len() != ab.len() {
+        other = true;
+    }
+    for (x, y) in bb.iter().zip(ab.iter()) {
+        if x[0] != y[0] || x[1] != y[1] {
+            other = true;
+        } else if x[2] != y[2] {
+            if x[2] == serde_json::json!(false) && y[2] == serde_json::json!(true) {
+                *flips.entry(x[1].as_str().unwrap_or("").to_string()).or_insert(0) += 1;
+            } else {
+                other = true;
+            }
+        }
+    }
+    let (bf, af) = (b["files"].as_array().cloned().unwrap_or_default(), a["files"].as_array().cloned().unwrap_or_default());
+    if bf.len() != af.len() {
+        other = true;
+    }
+    let mut counter_excess = 0i64;
+    for (x, y) in bf.iter().zip(af.iter()) {
+        if x[0] != y[0] || x[1] != y[1] || x[3] != y[3] || x[4] != y[4] {
+            other = true;
+        }
+        let d = y[2].as_i64().unwrap_or(0) - x[2].as_i64().unwrap_or(0);
+        let fl = flips.get(x[0].as_str().unwrap_or("")).copied().unwrap_or(0);
+        if d != fl {
+            counter_excess += d - fl;
+            other = true;
+        }
+    }
+    let total_flips: i64 = flips.values().sum();
+    let facts = vec![
+        ("blocks_marked".to_string(), serde_json::json!(total_flips)),
+        ("counter_excess".to_string(), serde_json::json!(counter_excess)),
+    ];
+    if other {
+        ("c02.reclaim_state_changed", facts)
+    } else {
+        ("c02.reclaim_marked", facts)
+    }
+}
+
+/// Largest j <= cursor such that `got` equals log[j..j+got.len()] (and, for a drain, reaches the end of the log).
+fn adopt_point(log: &[Sig], cursor: usize, got: &[Sig], to_end: bool) -> Option<usize> {
+    if got.is_empty() {
+        return None;
+    }
+    (0..=cursor.min(log.len())).rev().find(|&j| {
+        j + got.len() <= log.len()
+            && (!to_end || j + got.len() == log.len())
+            && got.iter().zip(log[j..].iter()).all(|(g, e)| g.0 == e.0 && g.1 == e.1)
+    })
 }
 
 pub fn api_name(k: &OpKind) -> &'static str {
